@@ -84,8 +84,6 @@ func (g *gen) where() (string, int64) {
 	switch g.rng.Intn(10) {
 	case 0, 1:
 		return "", 0
-	case 2:
-		return "v", g.pick(10, 20, 30, 0)
 	default:
 		return "id", g.id()
 	}
